@@ -144,6 +144,18 @@ const MARKERS: &[MarkerKind] = &[
         samples: &["ab)", "x"],
         misses: &["", "1"],
     },
+    // escape classes whose two letter cases mean opposite things: two patterns that differ only there are equal
+    // "up to ASCII case" and accept disjoint strings
+    MarkerKind {
+        regex: "\\d+",
+        samples: &["1", "42"],
+        misses: &["", "x", "4a"],
+    },
+    MarkerKind {
+        regex: "\\D+",
+        samples: &["ab", "x-y"],
+        misses: &["", "1", "a1"],
+    },
 ];
 
 /// Legal expressions whose compiled program is large (1-4 MB, 8-25 ms to build): bounded repetitions of unicode
